@@ -105,6 +105,9 @@ fn real(c: &Value) -> Value {
         }
         ("hmc", "f32") => real_hmc::<f32, B32>(c),
         ("hmc", "f64") => real_hmc::<f64, B64>(c),
+        // scalar type and backend float type differ (the sampler's T is only the type of step size / uniforms)
+        ("hmc", "f32b64") => real_hmc::<f32, B64>(c),
+        ("hmc", "f64b32") => real_hmc::<f64, B32>(c),
         ("nuts", "f32") => real_nuts::<f32, B32>(c),
         ("nuts", "f64") => real_nuts::<f64, B64>(c),
         (k, f) => panic!("unknown real sampler {k}/{f}"),
